@@ -6,7 +6,7 @@
 (* Active) AND the event lies inside the set characterised here; anything  *)
 (* else is reported.  Every use prints a KNOWN line for the harness.       *)
 (***************************************************************************)
-EXTENDS Integers, Sequences, TLC
+EXTENDS Integers, Sequences, FiniteSets, TLC
 
 Note(id, what) == PrintT(<<"KNOWN", id, what>>)
 
@@ -183,4 +183,17 @@ KnownParams(Active, F) ==
     /\ \E i \in DOMAIN F.pre : F.pre[i] \in {"zkifbellman", "zkifbulletproofs"}
     /\ F.backend_name = "zkinterface" /\ ~F.raised /\ F.setid = "x5_254"
     /\ Note("C20-params-follow-shadowed-name", <<F.pre, F.env>>)
+
+(* ----------------------------------------------------------------------- *)
+(* C12 context mixing *)
+(* C12-global-one-in-subcircuit: LinComb.ONE / ONE_SAFE is created once in the main context; equations emitted     *)
+(* inside a @subqap function that use it (zero tests, comparisons, assertions against plain integers) mention     *)
+(* main/onex next to the sub-circuit's wires, and the backend's splitting step then aborts.                      *)
+KnownCtxMix(Active, e) ==
+    /\ IsActive(Active, "C12-global-one-in-subcircuit")
+    /\ LET N == {e.a[i].n : i \in DOMAIN e.a} \cup {e.b[i].n : i \in DOMAIN e.b} \cup {e.c[i].n : i \in DOMAIN e.c}
+           Ctxs == {n.ctx : n \in N} IN
+       /\ Cardinality(Ctxs) = 2 /\ "main" \in Ctxs
+       /\ \A n \in N : n.ctx = "main" => n.loc = "onex"
+    /\ Note("C12-global-one-in-subcircuit", <<"equation mixes main/onex with a sub-circuit context">>)
 =============================================================================
